@@ -92,6 +92,8 @@ fn case_strategy(tier: Tier) -> BoxedStrategy<CbcCase> {
         prop_oneof![
             4 => Just(Out::Ok),
             5 => Just(Out::Err(3)),
+            // an error the classifier does not count as a failure
+            1 => Just(Out::Err(7)),
             1 => Just(Out::Panic),
         ],
     )
@@ -145,14 +147,14 @@ fn case_strategy(tier: Tier) -> BoxedStrategy<CbcCase> {
 
 const FB_BASE: u64 = 5_000_000;
 
-type Fb = CircuitBreakerWithFallback<
-    Scripted,
-    tower_resilience_circuitbreaker::DefaultClassifier,
-    Req,
-    Resp,
-    SErr,
->;
-type Plain = CircuitBreaker<Scripted, tower_resilience_circuitbreaker::DefaultClassifier>;
+/// The concurrent cases always run with a custom failure classifier: like the default one, except
+/// that an error with code 7 is *not* a failure (an "ignored" error: it is recorded as a success).
+type Cls = tower_resilience_circuitbreaker::FnClassifier<fn(&Result<Resp, SErr>) -> bool>;
+fn ignore_code_7(r: &Result<Resp, SErr>) -> bool {
+    matches!(r, Err(e) if e.code != 7)
+}
+type Fb = CircuitBreakerWithFallback<Scripted, Cls, Req, Resp, SErr>;
+type Plain = CircuitBreaker<Scripted, Cls>;
 
 #[derive(Clone)]
 enum Handle {
@@ -265,11 +267,16 @@ async fn interp(case: &CbcCase) -> Verdict {
     let inner = Scripted::from_table(log.clone(), table, Step::ok(0));
     let l2 = log.clone();
     let layer = builder(cfg)
+        .failure_classifier(ignore_code_7 as fn(&Result<Resp, SErr>) -> bool)
         .on_state_transition(move |from, to| {
             l2.note("transition", st_code(from), st_code(to));
         })
         .build();
     let plain = layer.layer_fn(inner.clone());
+    // a handle taken BEFORE the breaker is converted with with_fallback(): it shares the circuit
+    // with the fallback service and all its clones (a control handle kept for force_open, a
+    // health trigger)
+    let control = plain.clone();
     let base = if case.fallback {
         let fb_ms = case.fallback_ms;
         Handle::Fb(plain.with_fallback(move |req: Req| -> BoxFuture<'static, Result<Resp, SErr>> {
@@ -288,6 +295,12 @@ async fn interp(case: &CbcCase) -> Verdict {
         Handle::Plain(plain)
     };
     let mut clones: Vec<Handle> = (0..case.clones).map(|_| base.clone()).collect();
+    // with a fallback and at least two handles, the last one is the pre-conversion plain handle
+    let plain_handle: Option<usize> = (case.fallback && case.clones >= 2).then(|| case.clones as usize - 1);
+    if let Some(k) = plain_handle {
+        clones[k] = Handle::Plain(control.clone());
+    }
+    let uses_fb = |clone: u8| case.fallback && Some((clone % case.clones) as usize) != plain_handle;
 
     let horizon = callers
         .iter()
@@ -311,7 +324,7 @@ async fn interp(case: &CbcCase) -> Verdict {
         if case.force_open_at == Some(t) {
             // through the simulator like every caller: if the circuit's lock is held by somebody's
             // pending future, this waits with it instead of blocking the whole run
-            let h = base.clone();
+            let h = Handle::Plain(control.clone());
             let lg = log.clone();
             sim.spawn(async move {
                 h.force_open().await;
@@ -515,12 +528,13 @@ async fn interp(case: &CbcCase) -> Verdict {
         }
         // a rejected caller is answered at once: by the error, or by its fallback future, which
         // takes exactly `fallback_ms` (nobody else's fallback may hold it up)
-        let fb_wait = if case.fallback { case.fallback_ms } else { 0 };
+        let fb = uses_fb(callers[i].clone);
+        let fb_wait = if fb { case.fallback_ms } else { 0 };
         let rejected_shape = |out: &Outcome| -> bool {
             match out {
-                Outcome::Layer(nm) => !case.fallback && nm == "OpenCircuit",
+                Outcome::Layer(nm) => !fb && nm == "OpenCircuit",
                 Outcome::Ok { serial, req } => {
-                    case.fallback && *serial == FB_BASE + i as u64 && req.id == i as u32
+                    fb && *serial == FB_BASE + i as u64 && req.id == i as u32
                 }
                 _ => false,
             }
@@ -548,7 +562,7 @@ async fn interp(case: &CbcCase) -> Verdict {
                         if !cancelled_meanwhile {
                             dest.push(format!(
                                 "caller {i} first polled at t={t} while {why}: expected an immediate {} but got {:?}",
-                                if case.fallback { "fallback response for its own request" } else { "OpenCircuit error" },
+                                if fb { "fallback response for its own request" } else { "OpenCircuit error" },
                                 other
                             ));
                         }
